@@ -153,6 +153,25 @@ func nxFlows(v ssa.Value, hit func(ssa.Value) bool, stop func(ssa.Value) bool) b
 				return walk(b, d+1)
 			}
 			return false
+		case *ssa.Parameter:
+			// a private helper's parameter is the argument at its call sites
+			for _, a := range nxParamArgs(x) {
+				if walk(a, d+1) {
+					return true
+				}
+			}
+			return false
+		case *ssa.Call:
+			// a private helper's result is what it returns
+			if n := x.Call.Signature().Results().Len(); n > 0 {
+				for i := 0; i < n; i++ {
+					for _, rv := range nxResultVals(x, i) {
+						if walk(rv, d+1) {
+							return true
+						}
+					}
+				}
+			}
 		}
 		if in, ok := v.(ssa.Instruction); ok {
 			for _, op := range in.Operands(nil) {
@@ -493,7 +512,7 @@ func nxEnumPaths(start, pred *ssa.BasicBlock, maxVisit, limit int,
 				undo = append(undo, saved{phi, old, had})
 				var val constant.Value
 				if pi >= 0 {
-					val = nxEval(phi.Edges[pi], env)
+					val = nxEvalA(phi.Edges[pi], env, assume)
 				}
 				news = append(news, nv{phi, val})
 			}
@@ -515,12 +534,10 @@ func nxEnumPaths(start, pred *ssa.BasicBlock, maxVisit, limit int,
 				f(&core.Path{Blocks: append([]*ssa.BasicBlock(nil), blocks...)})
 			}
 		case *ssa.If:
-			cv := nxEval(x.Cond, env)
+			cv := nxEvalA(x.Cond, env, assume)
 			known, val := false, false
 			if cv != nil && cv.Kind() == constant.Bool {
 				known, val = true, constant.BoolVal(cv)
-			} else if assume != nil {
-				val, known = assume(x.Cond)
 			}
 			for i, s := range b.Succs {
 				if known && val != (i == 0) {
@@ -548,6 +565,20 @@ func nxEnumPaths(start, pred *ssa.BasicBlock, maxVisit, limit int,
 }
 
 func nxEval(v ssa.Value, env map[ssa.Value]constant.Value) constant.Value {
+	return nxEvalA(v, env, nil)
+}
+
+// nxEvalA evaluates v from constants, the phi values chosen along the path and
+// the caller's assumptions about conditions (also when the condition is
+// computed into a named boolean before it is branched on).
+func nxEvalA(v ssa.Value, env map[ssa.Value]constant.Value, assume func(cond ssa.Value) (val, known bool)) constant.Value {
+	if assume != nil {
+		if _, isK := v.(*ssa.Const); !isK && nxIsBool(v) {
+			if val, known := assume(v); known {
+				return constant.MakeBool(val)
+			}
+		}
+	}
 	switch x := v.(type) {
 	case *ssa.Const:
 		if x.Value != nil && (x.Value.Kind() == constant.Bool || x.Value.Kind() == constant.Int) {
@@ -559,12 +590,12 @@ func nxEval(v ssa.Value, env map[ssa.Value]constant.Value) constant.Value {
 		}
 	case *ssa.UnOp:
 		if x.Op == token.NOT {
-			if c := nxEval(x.X, env); c != nil && c.Kind() == constant.Bool {
+			if c := nxEvalA(x.X, env, assume); c != nil && c.Kind() == constant.Bool {
 				return constant.MakeBool(!constant.BoolVal(c))
 			}
 		}
 	case *ssa.BinOp:
-		a, b := nxEval(x.X, env), nxEval(x.Y, env)
+		a, b := nxEvalA(x.X, env, assume), nxEvalA(x.Y, env, assume)
 		if a != nil && b != nil && a.Kind() == b.Kind() {
 			switch x.Op {
 			case token.EQL, token.NEQ, token.LSS, token.LEQ, token.GTR, token.GEQ:
@@ -636,7 +667,7 @@ func nxPathIndex(p *core.Path, pred func(ssa.Instruction) bool) int {
 
 // nxGuardNilErr: at block b it is established that the error value err is nil.
 func nxGuardNilErr(b *ssa.BasicBlock, err ssa.Value) bool {
-	return core.HasGuard(b, func(g core.Guard) bool { return nxCondErrNil(g.Cond, g.Pol, err) })
+	return nxHolds(b, func(g core.Guard) bool { return nxCondErrNil(g.Cond, g.Pol, err) })
 }
 
 // nxCondErrNil: the edge (cond, pol) establishes err == nil.
